@@ -5,8 +5,13 @@
     (Model/SerdeC.v, Model/Multi.v) mirrors the checks of the deserializer in the
     order the visitors make them.  Token-level malformation (wrong token kinds,
     truncated streams) is what serde itself rejects and is exercised on the real
-    code only (PARTIAL, see DESIGN.md). *)
-From Brood Require Import Base World Multi SerdeC BaseFacts Inv StepInv SerdeL SerdeCFacts.
+    code only (PARTIAL, see DESIGN.md).  The cleanup of a failed row-wise table
+    is modelled at the cell level (Model/DeRows.v): whatever row fails, at
+    whatever cell, with or without surplus tokens, every value created is
+    dropped exactly once — with the two repairs of finding F9 read off the
+    source (Gen/Facts.v) and each shown necessary. *)
+From Coq Require Import Permutation.
+From Brood Require Import Base World Multi SerdeC BaseFacts Inv StepInv SerdeL SerdeCFacts DeRows DeRowsFacts.
 
 (** For ALL content — identifiers listed twice, listed as free and as stored,
     out of range or missing, archetypes repeated, wrong declared lengths, rows of
@@ -73,3 +78,31 @@ Example C11_example :
   (exists e, de_content 2 [a1; a3] 3 [] [] = inl e) /\
   (exists w, de_content 2 [a1; a3] 3 [(2, 4%N)] [] = inr w).
 Proof. vm_compute. repeat split; eexists; reflexivity. Qed.
+
+
+(** Row-wise (human-readable) table, any number of columns, any declared length, any rows — short,
+    long, ill-typed at any cell, too few rows: a failure drops exactly the values it created, a
+    success drops nothing and stores exactly the values it created, [len] per column. *)
+Theorem C11_failed_table_drops_what_it_created : forall ncols len rows,
+  match de_table_src ncols len rows with
+  | (None, evs) => Permutation (made evs) (gone evs)
+  | (Some cols', evs) => gone evs = [] /\ Permutation (made evs) (concat cols') /\ Forall (fun c => length c = len) cols'
+  end.
+Proof. exact de_table_src_conserves. Qed.
+Check (C11_failed_table_drops_what_it_created : forall ncols len rows,
+  match de_table_src ncols len rows with
+  | (None, evs) => Permutation (made evs) (gone evs)
+  | (Some cols', evs) => gone evs = [] /\ Permutation (made evs) (concat cols') /\ Forall (fun c => length c = len) cols'
+  end).
+Print Assumptions C11_failed_table_drops_what_it_created.
+
+(** finding F9 as it was before the repair: without either of the two, a value is created and never dropped *)
+Theorem C11_F9_without_the_repair :
+  (let '(res, evs) := de_table false true 2 1 [[Some 1%N; None]] in res = None /\ made evs = [1%N] /\ gone evs = []) /\
+  (let '(res, evs) := de_table true false 2 1 [[Some 1%N; Some 2%N; Some 3%N]] in res = None /\ made evs = [1%N; 2%N] /\ gone evs = []).
+Proof. exact (conj no_pop_leaks no_flag_leaks). Qed.
+Print Assumptions C11_F9_without_the_repair.
+
+Example C11_table_example : de_table_src 2 2 [[Some 1%N; Some 2%N]; [Some 3%N; None]]
+  = (None, [Made 1%N; Made 2%N; Made 3%N; Gone 3%N; Gone 1%N; Gone 2%N]).
+Proof. vm_compute. reflexivity. Qed.
